@@ -5,6 +5,23 @@ import itertools, json
 
 from pyramid.authorization import (ACLHelper, ACLAuthorizationPolicy, Allow, Deny, Everyone,
                                    Authenticated, ALL_PERMISSIONS)
+import pyramid.security as _psec
+
+# the same abstract ACE can be written with different Python objects; the decision must not depend on which:
+# the all-permissions marker exported by pyramid.authorization or the (deprecated, still exported) one of
+# pyramid.security (an instance of a different class); a permission collection as list, tuple, set or frozenset
+ALL_MARKERS = [ALL_PERMISSIONS, getattr(_psec, 'ALL_PERMISSIONS', ALL_PERMISSIONS)]
+COLLS = [list, tuple, set, frozenset]
+
+
+def realise_perm(p, variant, salt):
+    h = (variant * 2654435761 + salt * 40503) & 0xffffffff
+    if p == 'all':
+        return ALL_MARKERS[(h >> 3) % len(ALL_MARKERS)] if variant else ALL_PERMISSIONS
+    if isinstance(p, list):
+        names = [PERMS[x] for x in p]
+        return COLLS[(h >> 5) % len(COLLS)](names) if variant else names
+    return PERMS[p]
 
 PRINC = [Everyone, 'alice', 'bob', 'group:editors', Authenticated]   # index = model name; 0 = Everyone
 PERMS = ['view', 'edit', 'delete']                                      # index = model name
@@ -21,7 +38,7 @@ class Node:
     pass
 
 
-def build(case, callable_mask=0):
+def build(case, callable_mask=0, variant=0):
     """real location-aware objects for a case; lineage[0] is the context"""
     nodes = []
     parent = None
@@ -30,9 +47,8 @@ def build(case, callable_mask=0):
         n.__parent__ = parent
         n.__name__ = 'n%d' % k
         if acl is not None:
-            aces = [(ACTIONS[a], PRINC[w], (ALL_PERMISSIONS if p == 'all' else
-                                            [PERMS[x] for x in p] if isinstance(p, list) else PERMS[p]))
-                    for a, w, p in acl]
+            aces = [(ACTIONS[a], PRINC[w], realise_perm(p, variant, 31 * k + j))
+                    for j, (a, w, p) in enumerate(acl)]
             if (callable_mask >> k) & 1:
                 n.__acl__ = (lambda aces=aces: aces)
             else:
@@ -44,8 +60,8 @@ def build(case, callable_mask=0):
     return nodes
 
 
-def impl(case, callable_mask=0):
-    nodes = build(case, callable_mask)
+def impl(case, callable_mask=0, variant=0):
+    nodes = build(case, callable_mask, variant)
     ctx_obj = nodes[0]
     princs = [PRINC[i] for i in case['princs']]
     perm = PERMS[case['perm']]
@@ -119,6 +135,11 @@ def check_case(case, model_out, mask):
     got = impl(case, mask)
     mism = viol = None
     exp = spec(case)
+    # the same case written with other Python objects (other all-permissions marker, other collection types)
+    alt = impl(case, mask, variant=1 + (mask * 7 + len(json.dumps(case))) % 97)
+    if any(alt[k] != got[k] for k in ('permits', 'at', 'allowed', 'policy_agrees', 'type_ok', 'allowed_granted')):
+        got = alt          # report the deviating realisation; the spec/model comparison below then flags it
+        got['realisation'] = 'variant (pyramid.security marker / tuple-set-frozenset permission collections)'
     if got['permits'] != exp or not got['policy_agrees'] or not got['type_ok']:
         viol = {'case': case, 'impl': got, 'expected': {'permits': exp}, 'detail': 'permits() is not the decision of the first matching ACE'}
     elif wf(case) and not got['allowed_granted']:
@@ -202,4 +223,10 @@ def replay(ctx, rep):
         return {'violates': False, 'note': 'replay names broken obligations only', 'broken': rep.get('broken_obligations')}
     mo = ctx.run_model([case])[0] if ctx.driver_path else None
     m, v = check_case(case, mo, 0)
-    return {'case': case, 'impl': impl(case), 'model': mo, 'spec': {'permits': spec(case)}, 'mismatch': m, 'violates': bool(v)}
+    got = impl(case)
+    for variant in range(1, 98):          # the same case written with other Python objects must decide the same
+        alt = impl(case, 0, variant)
+        if any(alt[k] != got[k] for k in ('permits', 'at', 'allowed', 'allowed_granted')):
+            got = dict(alt, realisation='variant %d (pyramid.security marker / other collection types)' % variant)
+            break
+    return {'case': case, 'impl': got, 'model': mo, 'spec': {'permits': spec(case)}, 'mismatch': m, 'violates': bool(v)}
